@@ -1474,6 +1474,244 @@ run_s14(void *arg)
 	vh_fini();
 }
 
+// ---- S18: one aio reused for operations that complete at submission ------------------------------
+// One aio is used for a sequence of different operations on different objects, most of which
+// complete inside the submitting call: sleep 0, receive with the message already queued and a zero
+// timeout / an expiry in the past, receive with nothing queued and a zero timeout, send with room
+// and a zero timeout, send on a closed socket, a sleep cut short by the aio's own timeout, and a
+// timed receive racing a message and a cancel.  After every step: exactly one more callback, result
+// from the step's set, NNG_ETIMEDOUT never before the configured time, and the effect matches the
+// result (a failed receive leaves the message receivable, a failed send leaves it attached to the
+// aio and never delivers it, a successful one delivers it exactly once).  In the racing variant a
+// second thread calls nng_aio_cancel around every submission: a cancel that comes too late must not
+// change the result of the completed operation nor leak into the next use of the aio (which is
+// started without a cancel of its own... it has one too, so only its own step may report it).
+enum { L_SLEEP0, L_RECV_READY0, L_RECV_EMPTY0, L_RECV_READY_EXPIRED, L_SEND_ROOM0, L_SEND_CLOSED,
+	L_SLEEP_CUT, L_RECV_RACE, L_N };
+static const char *S18N[] = { "sleep0", "recv-ready-t0", "recv-empty-t0", "recv-ready-expired",
+	"send-room-t0", "send-closed", "sleep5-timeout3", "recv10-msg-cancel" };
+static struct {
+	op         o;
+	nng_socket a, b, c;
+	int        b2a_sent, b2a_got, a2b_sent, a2b_got; // numbered messages, each direction
+	int        racing;
+} S18;
+
+static void *
+s18_canceller(void *x)
+{
+	(void) x;
+	nng_aio_cancel(S18.o.aio);
+	return NULL;
+}
+static void *
+s18_sender(void *x)
+{
+	(void) x;
+	nng_msg *m;
+	VH_OK(nng_msg_alloc(&m, 0));
+	VH_OK(nng_msg_append_u32(m, (uint32_t) (S18.b2a_sent + 1)));
+	if (nng_sendmsg(S18.b, m, NNG_FLAG_NONBLOCK) != 0)
+		nng_msg_free(m);
+	else
+		S18.b2a_sent++;
+	return NULL;
+}
+static void
+s18_take_a(nng_msg *m, const char *how)
+{
+	uint32_t v = 0;
+	if (m == NULL || nng_msg_len(m) != 4 || nng_msg_trim_u32(m, &v) != 0)
+		vs_fail("C02:result-without-effect", "%s: success but no (or a wrong) message", how);
+	if ((int) v != S18.b2a_got + 1)
+		vs_fail("C02:message-conservation",
+		    "%s: message %u delivered, expected %d (delivered twice, skipped or reordered)",
+		    how, v, S18.b2a_got + 1);
+	S18.b2a_got++;
+	nng_msg_free(m);
+}
+
+static void
+s18_step(int letter)
+{
+	op        *o = &S18.o;
+	nng_msg   *m = NULL;
+	pthread_t  tc, ts;
+	int        have_c = 0, have_s = 0;
+	int        pending = S18.b2a_sent - S18.b2a_got; // queued at (or on their way to) A
+	int        ncb0    = o->ncb;
+	if (letter == L_RECV_READY0 || letter == L_RECV_READY_EXPIRED) {
+		s18_sender(NULL);
+		vs_settle();
+		pending = S18.b2a_sent - S18.b2a_got;
+	}
+	o->timeout = -1;
+	o->submitted++;
+	o->t_start = vs_now();
+	vs_log("step %s (pending %d)", S18N[letter], pending);
+	if (S18.racing)
+		vs_window(1);
+	switch (letter) {
+	case L_SLEEP0:
+		nng_aio_set_timeout(o->aio, NNG_DURATION_INFINITE);
+		nng_sleep_aio(0, o->aio);
+		break;
+	case L_RECV_READY0:
+	case L_RECV_EMPTY0:
+		nng_aio_set_timeout(o->aio, NNG_DURATION_ZERO);
+		o->timeout = 0;
+		nng_socket_recv(S18.a, o->aio);
+		break;
+	case L_RECV_READY_EXPIRED:
+		nng_aio_set_expire(o->aio, nng_clock() - 5);
+		o->timeout = 0;
+		nng_socket_recv(S18.a, o->aio);
+		break;
+	case L_SEND_ROOM0:
+	case L_SEND_CLOSED:
+		VH_OK(nng_msg_alloc(&m, 0));
+		VH_OK(nng_msg_append_u32(m, (uint32_t) (S18.a2b_sent + 1)));
+		nng_aio_set_msg(o->aio, m);
+		nng_aio_set_timeout(o->aio, letter == L_SEND_ROOM0 ? NNG_DURATION_ZERO : NNG_DURATION_INFINITE);
+		o->timeout = letter == L_SEND_ROOM0 ? 0 : -1;
+		nng_socket_send(letter == L_SEND_ROOM0 ? S18.a : S18.c, o->aio);
+		break;
+	case L_SLEEP_CUT:
+		nng_aio_set_timeout(o->aio, 3);
+		o->timeout = 3;
+		nng_sleep_aio(5, o->aio);
+		break;
+	default:
+		nng_aio_set_timeout(o->aio, 10);
+		o->timeout = 10;
+		if (!S18.racing)
+			vs_window(1);
+		nng_socket_recv(S18.a, o->aio);
+		pthread_create(&ts, NULL, s18_sender, NULL);
+		have_s = 1;
+		if (!S18.racing) {
+			pthread_create(&tc, NULL, s18_canceller, NULL);
+			have_c = 1;
+		}
+		break;
+	}
+	if (S18.racing) {
+		pthread_create(&tc, NULL, s18_canceller, NULL);
+		have_c = 1;
+	}
+	nng_aio_wait(o->aio);
+	if (o->ncb != ncb0 + 1 || o->in_cb)
+		vs_fail("C02:wait-before-callback",
+		    "%s: nng_aio_wait returned with %d new callback(s) (in_cb=%d)", S18N[letter],
+		    o->ncb - ncb0, o->in_cb);
+	if (have_c)
+		pthread_join(tc, NULL);
+	if (have_s)
+		pthread_join(ts, NULL);
+	vs_window(0);
+	vs_settle();
+	if (o->ncb != o->submitted)
+		vs_fail("C02:callback-count", "%s: %d submissions, %d callbacks", S18N[letter],
+		    o->submitted, o->ncb);
+	int r = o->result;
+	int c = (have_c && r == NNG_ECANCELED); // only a step that had a canceller may report it
+	switch (letter) {
+	case L_SLEEP0:
+		if (r != 0 && !c)
+			vs_fail("C02:bad-result", "sleep(0) -> %s", nng_strerror(r));
+		break;
+	case L_RECV_READY0:
+	case L_RECV_READY_EXPIRED:
+	case L_RECV_EMPTY0:
+	case L_RECV_RACE:
+		if (r == 0)
+			s18_take_a(nng_aio_get_msg(o->aio), S18N[letter]);
+		else if (!(r == NNG_ETIMEDOUT || c))
+			vs_fail("C02:bad-result", "%s -> %s", S18N[letter], nng_strerror(r));
+		if (r == 0 && letter == L_RECV_EMPTY0 && pending == 0)
+			vs_fail("C02:result-without-effect", "receive succeeded with nothing sent");
+		break;
+	case L_SEND_ROOM0:
+	case L_SEND_CLOSED:
+		if (r == 0) {
+			if (letter == L_SEND_CLOSED)
+				vs_fail("C02:bad-result", "send on a closed socket succeeded");
+			S18.a2b_sent++;
+		} else {
+			if (letter == L_SEND_CLOSED ? (r != NNG_ECLOSED && !c) : (r != NNG_ETIMEDOUT && !c))
+				vs_fail("C02:bad-result", "%s -> %s", S18N[letter], nng_strerror(r));
+			if (nng_aio_get_msg(o->aio) != m)
+				vs_fail("C02:result-without-effect",
+				    "%s failed (%s) but the message is no longer attached to the aio",
+				    S18N[letter], nng_strerror(r));
+			nng_msg_free(m); // (a library that kept or freed it shows up under ASan)
+			nng_aio_set_msg(o->aio, NULL);
+		}
+		break;
+	case L_SLEEP_CUT:
+		if (!(r == NNG_ETIMEDOUT || c || (r == 0 && o->t_cb >= o->t_start + 5)))
+			vs_fail(r == 0 ? "C02:early-timeout" : "C02:bad-result",
+			    "sleep(5) with an aio timeout of 3 -> %s after %lld ms", nng_strerror(r),
+			    (long long) (o->t_cb - o->t_start));
+		break;
+	}
+}
+
+static void
+run_s18(void *arg)
+{
+	int depth = (int) (intptr_t) arg & 0xf;
+	vh_init(0);
+	memset(&S18, 0, sizeof(S18));
+	S18.racing = ((intptr_t) arg & 0x100) != 0;
+	VH_OK(nng_pair0_open(&S18.a));
+	VH_OK(nng_pair0_open(&S18.b));
+	VH_OK(nng_pair0_open(&S18.c));
+	VH_OK(nng_socket_close(S18.c));
+	VH_OK(nng_socket_set_int(S18.a, NNG_OPT_RECVBUF, 4));
+	VH_OK(nng_socket_set_int(S18.b, NNG_OPT_RECVBUF, 4));
+	VH_OK(nng_listen(S18.a, "inproc://s18", NULL, 0));
+	VH_OK(nng_dial(S18.b, "inproc://s18", NULL, 0));
+	VH_OK(nng_aio_alloc(&S18.o.aio, op_cb, &S18.o));
+	vs_settle();
+	char hist[100] = "";
+	for (int i = 0; i < depth; i++) {
+		int l = vs_choose(VK_ENV, L_N);
+		snprintf(hist + strlen(hist), sizeof(hist) - strlen(hist), "%s%d", i ? "," : "", l);
+		s18_step(l);
+	}
+	vs_sleep(30);
+	if (S18.o.ncb != S18.o.submitted)
+		vs_fail("C02:callback-count", "%d submissions, %d callbacks at the end",
+		    S18.o.submitted, S18.o.ncb);
+	// conservation in both directions: everything accepted is still receivable, once, in order
+	nng_msg *m;
+	while (nng_recvmsg(S18.a, &m, NNG_FLAG_NONBLOCK) == 0)
+		s18_take_a(m, "final drain");
+	if (S18.b2a_got != S18.b2a_sent)
+		vs_fail("C02:message-conservation",
+		    "B sent %d messages, A's receives and the final drain produced %d", S18.b2a_sent,
+		    S18.b2a_got);
+	while (nng_recvmsg(S18.b, &m, NNG_FLAG_NONBLOCK) == 0) {
+		uint32_t v = 0;
+		if (nng_msg_len(m) != 4 || nng_msg_trim_u32(m, &v) != 0 || (int) v != S18.a2b_got + 1)
+			vs_fail("C02:message-conservation",
+			    "B received message %u, expected %d (a failed send was delivered, or a "
+			    "successful one twice / not at all)", v, S18.a2b_got + 1);
+		S18.a2b_got++;
+		nng_msg_free(m);
+	}
+	if (S18.a2b_got != S18.a2b_sent)
+		vs_fail("C02:message-conservation", "A's sends succeeded %d times, B received %d",
+		    S18.a2b_sent, S18.a2b_got);
+	vs_outcome("%s cb=%d in=%d/%d out=%d/%d last=%d", hist, S18.o.ncb, S18.b2a_got, S18.b2a_sent,
+	    S18.a2b_got, S18.a2b_sent, S18.o.result);
+	nng_aio_free(S18.o.aio);
+	nng_socket_close(S18.a);
+	nng_socket_close(S18.b);
+	vh_fini();
+}
+
 #include "sendrace.h"
 
 static void
@@ -1567,6 +1805,9 @@ main(int argc, char **argv)
 	explore("S8-stream-close-cancel", run_s8, (void *) 1, p, t, sw, tot);
 	explore("S8-stream-idle-cancel", run_s8, (void *) 2, p, t, sw, tot);
 	explore("S17-http-transact-cancel", run_s17, NULL, 1, 1, 1, T ? 2 : 1);
+	explore("S18-reuse-immediate", run_s18, (void *) (intptr_t) (T ? 3 : 2), 1, 1, 1, 1);
+	explore("S18-reuse-immediate-cancel-everywhere", run_s18, (void *) (intptr_t) (0x100 | 2), 1, 1, 1,
+	    T ? 2 : 1);
 	for (int tr = 0; tr < 4; tr++) {
 		char nm[64];
 		snprintf(nm, sizeof(nm), "S16-stream-queued-writes-%s", S16N[tr]);
